@@ -11,6 +11,7 @@ from pyvc.values import *
 from pyvc.interp import Obj, Builtin, BoundMethod, Closure
 from pyvc.script import Script
 from pyvc.npmodel import EPS
+from .common import run_loop_body
 
 MOD = "shangrla.core.NonnegMean"
 INF = XR.const(float("inf"))
@@ -625,7 +626,7 @@ class WelfordInvariant:
             ml.is_list = vl.is_list = True
             env.vars[nm], env.vars[nv] = ml, vl
             I.assign(st.target, it.at(i), env)
-            I.exec_block(st.body, env, in_class)
+            run_loop_body(I, st, env, in_class)
             m2, v2 = env.vars[nm], env.vars[nv]
             S.holds("welford.inv.preserved.len", band(icmp("==", m2.length, i + 2), icmp("==", v2.length, i + 2)))
             S.eq("welford.inv.preserved.m", m2.at(i + 1), mean(i + 1))
